@@ -20,13 +20,14 @@ def gen_case(ctx, rng, i, tag='random'):
     children = [rng.choice(STATES) for _ in range(rng.randrange(0, 5))]
     stop = rng.choice(['terminate', 'terminate-noforce', 'sigterm'])
     fault = None
-    during_start = rng.random() < 0.25
+    during_start = rng.random() < 0.4
     if during_start:
         # stop the server while it is starting one more worker.  For terminate() the server's main thread is held at the
         # chosen delivery point until the WorkerTerminatedError is pending on it, so that it lands exactly there.
         fault = {'kind': 'terminate' if stop.startswith('terminate') else 'gate', 'role': 'child-main:ProcessWorker._run', 'any_thread': True,
                  'qualname': rng.choice(['RemoteWorker.__setstate__', 'RemoteWorker.__setstate__', 'RemoteServer.run', 'recv_msg', 'send_msg',
-                                         'remote_loads', 'PipeEndpoint.recv', 'Pipe.__init__']),
+                                         'remote_loads', 'PipeEndpoint.recv', 'Pipe.__init__', 'set_keepalive', '_ConnectionBase.send',
+                                         '_ConnectionBase.recv', 'PipeEndpoint.send', 'PipeEndpoint.close']),
                  'occ': rng.randrange(1, 12)}
     return {'kind': 'server', 'children': children, 'stop': stop, 'fault': fault, 'during_start': during_start,
             'policy': pol, 'knobs': knobs, 'sched_seed': ctx.case_seed(tag, i)}
